@@ -129,6 +129,23 @@ fn diff_from_abs(a: &AbsDiff) -> Difficulty {
     d
 }
 
+/// Mirror of Builders.tla `Forwards(mode, f)`: which settings a mode's performance builder accepts
+/// (validated against the code by the C18 replay).
+fn forwards(mode: &str, f: &str) -> bool {
+    match f {
+        "mods" | "passed" | "clock" | "hp" | "od" => true,
+        "ar" | "cs" => mode == "osu" || mode == "catch",
+        "hro" => mode == "catch",
+        "lazer" => mode == "osu" || mode == "mania",
+        _ => false,
+    }
+}
+
+fn diff_from_abs_for(a: &AbsDiff, mode: &str) -> Difficulty {
+    let filtered: AbsDiff = a.iter().filter(|(f, _)| forwards(mode, f)).map(|(k, v)| (k.clone(), v.clone())).collect();
+    diff_from_abs(&filtered)
+}
+
 /// what inspect() must show for the model's record
 fn expected_inspect(a: &AbsDiff) -> String {
     let g = |f: &str| a.get(f).cloned().unwrap_or(Val { v: "none".into(), w: false });
@@ -265,12 +282,14 @@ fn build_entry<'a>(entry: &str, mode: &str, map: &'a Beatmap, final_d: &Difficul
 
 fn run_entry(i: usize, sc: &Scenario, maps: &Maps, out: &mut Vec<Value>, checks: &mut u64) {
     let ev = sc.eval.as_ref().expect("entry scenario has eval");
-    let attrs_d = diff_from_abs(&ev.attrs_with);
-    let perf_d = diff_from_abs(&ev.perf_with);
+    let has_mods_call = sc.calls.iter().any(|c| c.f == "mods");
     // an accuracy-based score spec is only meaningful when no setter follows a generate_state()
     let gen_pos = sc.calls.iter().position(|c| c.f == "gen");
     let setter_after_gen = gen_pos.is_some_and(|g| sc.calls[g + 1..].iter().any(|c| c.f != "gen"));
     for (mode, (map, _)) in maps.by_mode.iter() {
+        // the reference is built through Difficulty setters (an independent path), restricted to what the mode's builder accepts
+        let attrs_d = diff_from_abs_for(&ev.attrs_with, mode);
+        let perf_d = diff_from_abs_for(&ev.perf_with, mode);
         for k in 0..(if setter_after_gen { 1 } else { 2 }) {
             *checks += 1;
             let real = guarded(|| {
@@ -292,17 +311,7 @@ fn run_entry(i: usize, sc: &Scenario, maps: &Maps, out: &mut Vec<Value>, checks:
             // the performance part: attributes made with `attrs_with`, settings `perf_with`
             // NB: only the forwarded settings of the mode reach the builder; diff_from_abs(perf_with) is handed
             // to the reference through the same Performance setters so that the table applies to both sides
-            let reference = guarded(|| {
-                let mut p = score(Performance::new(want_attrs.clone()), k);
-                for f in ["mods", "passed", "clock", "ar", "cs", "hp", "od", "hro", "lazer"] {
-                    if let Some(v) = ev.perf_with.get(f) {
-                        if v.v != "none" {
-                            p = apply_perf(p, &Call { f: f.into(), v: v.v.clone(), w: v.w });
-                        }
-                    }
-                }
-                p.calculate()
-            });
+            let reference = guarded(|| score(Performance::new(want_attrs.clone()).difficulty(perf_d.clone()), k).calculate());
             let Ok(reference) = reference else { continue };
             let (a, b) = (dbg_perf(&real), dbg_perf(&reference));
             if a != b {
@@ -317,6 +326,48 @@ fn run_entry(i: usize, sc: &Scenario, maps: &Maps, out: &mut Vec<Value>, checks:
                     "stale": sc.stale, "expected": wa.chars().take(500).collect::<String>(), "observed": emb.chars().take(500).collect::<String>()}));
             }
             let _ = PerformanceAttributes::pp(&real);
+        }
+    }
+    // map entry points on an osu!standard source converted through try_mode (key mod for mania)
+    if matches!(sc.entry.as_str(), "map_ref" | "map_owned") && gen_pos.is_none() {
+        let (osu_map, _) = &maps.by_mode["osu"];
+        for mode in ["taiko", "catch", "mania"] {
+            *checks += 1;
+            let key = if mode == "mania" && !has_mods_call { Some(rosu_mods::GameModIntermode::FourKeys) } else { None };
+            let mk_mods = |bits: u32| -> rosu_pp::GameMods {
+                let mut im = rosu_mods::GameModsIntermode::from_bits(bits);
+                if let Some(k) = key {
+                    im.insert(k);
+                }
+                im.into()
+            };
+            let gmode = match mode {
+                "taiko" => rosu_pp::model::mode::GameMode::Taiko,
+                "catch" => rosu_pp::model::mode::GameMode::Catch,
+                _ => rosu_pp::model::mode::GameMode::Mania,
+            };
+            let perf_d = diff_from_abs_for(&ev.perf_with, mode);
+            let bits = match &perf_d.clone().inspect().mods { rosu_pp::GameMods::Legacy(m) => m.bits(), _ => 0 };
+            let real = guarded(|| {
+                let p = if sc.entry == "map_ref" { Performance::new(osu_map) } else { Performance::new(osu_map.clone()) };
+                // conversion-relevant mods must be known before try_mode
+                let mut p = p.mods(mk_mods(0)).try_mode(gmode).ok().expect("osu map converts");
+                for c in &sc.calls {
+                    p = apply_perf(p, c);
+                }
+                p.mods(mk_mods(bits)).calculate()
+            });
+            let reference = guarded(|| {
+                let conv = osu_map.convert_ref(gmode, &mk_mods(bits)).expect("converts").into_owned();
+                let d = perf_d.clone().mods(mk_mods(bits));
+                let attrs = d.calculate(&conv);
+                Performance::new(attrs).difficulty(d).calculate()
+            });
+            match (real, reference) {
+                (Ok(a), Ok(b)) if dbg_perf(&a) == dbg_perf(&b) => {}
+                (a, b) => out.push(json!({"scenario_index": i, "aspect": "entry", "what": "converted_entry_point_result", "mode": mode, "entry": sc.entry, "calls": sc.calls,
+                    "expected": format!("{b:?}").chars().take(500).collect::<String>(), "observed": format!("{a:?}").chars().take(500).collect::<String>()})),
+            }
         }
     }
 }
